@@ -26,6 +26,12 @@ CHECKS = {
         note="Trusts gcc 12 for the search order and the model in vlib/pp_ast.py (gcc-validated each run); cases with a reached missing header or any gcc diagnostic are excluded.",
         ref="2 C04",
     ),
+    "C05": dict(
+        technique="property-based testing: exhaustive short-text enumeration + Hypothesis token-level texts vs reference phase-2/3 scanner, gcc -E as domain filter and scanner validation",
+        text="Generated-input search over C source texts: every text up to a length bound over the 10-character lexical alphabet and Hypothesis token-level texts (literals containing comment markers, multi-line and continued comments, continuations between any two characters, directive lines). The set of counted physical lines, the directive/code classification per logical line, duplicates and total_sloc from FileParser are compared with a reference scanner written from translation phases 2-3; gcc -E validates the scanner and filters the domain. Bounded exploration.",
+        note="Trusts the 100-line scanner in vlib/model_lines_c.py (validated against gcc -E line structure on continuation-free texts each run); enumerated '#' lines are limited to null directives.",
+        ref="2 C05",
+    ),
     "C07": dict(
         technique="property-based testing: exhaustive table enumeration + Hypothesis tables vs exact-rational reference model and metamorphic relations",
         text="Generated-input search: every table over 3 platforms with counts from a small set (complete enumeration) and Hypothesis tables over <=8 platforms are compared with exact rational formulas, plus symmetry/renaming/order/scaling relations and the printed metric lines. Finds formula deviations on any explored table; says nothing beyond the explored sizes.",
